@@ -191,3 +191,9 @@ def run(cx):
             le = any((not p) and match('(lt (self static_i) (param cloud_i))', a) is not None for a, p in g)
             ok = ok and ((gt and match('(sub (param cloud_i) 1)', dv) is not None) or (le and match('(param cloud_i)', dv) is not None))
         cx.ob('EXPR', 'ParamHandler::p_index', ok, 'parameter slot = body index, minus one past the static body', where=b.file)
+
+
+def run_thorough(cx):
+    """thorough tier: the generic evaluators this property relies on must fire on their positive fixture twins"""
+    from rules import fixture_check as FX
+    FX.enc(cx)
